@@ -380,8 +380,10 @@ class Assembler:
                 label = a
         for w, a, content in blk.sections:
             if w == "sub":
+                # a rewrite of a construct the verifier cannot take: if the construct is not there (any more) there is
+                # nothing to rewrite — the body is verified as it stands (an unsupported construct then makes the unit undecided)
                 rule, pat, repl = _parse_sub(a)
-                apply_sub(body_lines, rule, pat, repl, log, label)
+                apply_sub(body_lines, rule, pat, repl, log, label, count_required=0)
             elif w == "sigsub":
                 rule, pat, repl = _parse_sub(a)
                 apply_sub(sig_lines, rule, pat, repl, log, label)
